@@ -425,6 +425,67 @@ fn mutations(base: &[u8], rng: &mut u64, budget: usize) -> Vec<Vec<u8>> {
     }
 }
 
+/// Structure-aware truncation of an UPDATE: one attribute's value is cut to k octets and EVERY enclosing length field (the
+/// attribute's own, the Total Path Attribute Length, the header) is made consistent again, so that the decoder gets as
+/// far as the cut value itself.  MP_REACH_NLRI / MP_UNREACH_NLRI are cut at every offset of their first 72 octets (family,
+/// next-hop length, next hop, reserved octet, first NLRI), the other attributes at 0, 1 and len-1.
+fn structured(base: &[u8]) -> Vec<Vec<u8>> {
+    let mut v = Vec::new();
+    if base.len() < 23 || base[18] != 2 {
+        return v;
+    }
+    let wlen = u16::from_be_bytes([base[19], base[20]]) as usize;
+    let tal_at = 21 + wlen;
+    if tal_at + 2 > base.len() {
+        return v;
+    }
+    let alen = u16::from_be_bytes([base[tal_at], base[tal_at + 1]]) as usize;
+    let (a0, end) = (tal_at + 2, tal_at + 2 + alen);
+    if end > base.len() {
+        return v;
+    }
+    let mut i = a0;
+    while i + 3 <= end {
+        let (flags, code) = (base[i], base[i + 1]);
+        let ext = flags & 0x10 != 0;
+        let (vlen, vs) = if ext {
+            if i + 4 > end {
+                break;
+            }
+            (u16::from_be_bytes([base[i + 2], base[i + 3]]) as usize, i + 4)
+        } else {
+            (base[i + 2] as usize, i + 3)
+        };
+        if vs + vlen > end {
+            break;
+        }
+        let cuts: Vec<usize> = if code == 14 || code == 15 {
+            (0..vlen.min(72)).collect()
+        } else {
+            let mut c = vec![0usize, 1, vlen.saturating_sub(1)];
+            c.retain(|k| *k < vlen);
+            c.dedup();
+            c
+        };
+        for k in cuts {
+            let mut m = base[..vs + k].to_vec();
+            m.extend_from_slice(&base[vs + vlen..]);
+            if ext {
+                m[i + 2..i + 4].copy_from_slice(&(k as u16).to_be_bytes());
+            } else {
+                m[i + 2] = k as u8;
+            }
+            let nal = (alen - (vlen - k)) as u16;
+            m[tal_at..tal_at + 2].copy_from_slice(&nal.to_be_bytes());
+            let l = m.len() as u16;
+            m[16..18].copy_from_slice(&l.to_be_bytes());
+            v.push(m);
+        }
+        i = vs + vlen;
+    }
+    v
+}
+
 fn fix_bgp_len(m: &mut Vec<u8>) {
     if m.len() >= 19 {
         let l = m.len() as u16;
@@ -464,7 +525,9 @@ fn sweep(seed: u64, budget: usize, outp: &str) {
                         }
                         let base = b.to_vec();
                         let proto = format!("bgp/{}/as4={}/addpath={}/ext={}/enh={}", samples::family_name(family), as4, addpath, ext, enh);
-                        for mut m in mutations(&base, &mut rng, budget) {
+                        let mut muts = mutations(&base, &mut rng, budget);
+                        muts.extend(structured(&base));
+                        for mut m in muts {
                             for fix in [false, true] {
                                 if fix {
                                     fix_bgp_len(&mut m);
